@@ -116,7 +116,7 @@ def build_batch(cfg):
 
 
 ENGINES = ("basic", "langevin", "xl", "xl_damp", "ksa", "exc_basic", "exc_xl", "sh")
-STUB_OK = ("basic", "langevin", "xl", "xl_damp", "ksa", "sh_model")
+STUB_OK = ("basic", "langevin", "xl", "xl_damp", "ksa", "sh_model", "exc_basic", "exc_xl")
 
 
 def seqm_parameters(cfg):
@@ -448,6 +448,7 @@ def expected_streams(cfg):
         "forces": due_steps(S, int(h5.get("forces", 0))),
         "xyz": due_steps(S, int(o.get("xyz", 0))),
         "nonadiabatic": due_steps(S, int(h5.get("nonadiabatic", 0))) if cfg["engine"] in ("sh", "sh_model") else [],
+        "tdm": due_steps(S, int(h5.get("transition_density_matrices", 0))) if cfg["engine"] in ("exc_basic", "exc_xl", "sh") else [],
         "screen": due_steps(S, int(o.get("print", 0)), initial=False),
         "checkpoint": due_steps(S, int(o.get("ckpt", 0)), initial=False),
     }
